@@ -15,6 +15,12 @@ CHECKS = {
              "(4 item flavours x typed/untyped) plus seeded random histories up to 12 items, and TLC judges every recorded event with the same operators. "
              "Exhaustive inside the bound, sampled beyond; this is the right level for a small closed container whose state space the model can enumerate.",
         note=TB, technique="TLA+ spec + TLC model checking; spec->code replay of every (state, action); TLC-judged traces", ref="3 C13"),
+    "C14": dict(
+        text="TLC model-checks KeyedSet.tla (declarative key->item map and key-algebra vs the operational dict-probe / mixin-derived formulation; invariants "
+             "Unique, Resolution (item-or-key), Algebra over every operand of <=2 items; action properties Refines, Atomic) for both enforce settings; every "
+             "reachable content x every action (mutators, item-or-key reads, |,&,-,^,<=,<,>=,>,==,isdisjoint,|=,&=,-=,^= against KeyedSet and built-in set operands) "
+             "is executed on the real KeyedSet in 4 item flavours x typed x enforce, plus random histories over 10 keys; TLC judges every event. Exhaustive in the bound.",
+        note=TB, technique="TLA+ spec + TLC model checking; spec->code replay of every (state, action); TLC-judged traces", ref="3 C14"),
 }
 
 PENDING = "check not built yet in this round (see DESIGN.md section 3 for the planned TLA+ module)"
